@@ -35,7 +35,9 @@ RULE = ("cover-labelled networks of 1-5 motifs (edge, path, triangle, 4-cycle, d
         "np.float64 / np.int64, iterations as int / np.int64 / np.int32 (also in 40% of the ordinary cases; in the ordinary "
         "cases a query whose exact evaluation is estimated above ~1.5 s is dropped, at least one is kept). COVER LABELS: the integer key of '<key>-[vertices]-[edges]-<uid>' "
         "names the topology: cliques by size (default), and in half of the ordinary / 40% of the deep cases and 4 corpus cases "
-        "cliques by their EDGE COUNT, topologies numbered from 0, or arbitrary large numbers; vertex / edge literals spelled as "
+        "cliques by their EDGE COUNT, topologies numbered from 0, arbitrary large numbers, the VERTEX COUNT n naming a "
+        "non-clique topology on n vertices (a 4-cycle keyed 4, a 5-cycle keyed 5, a diamond keyed 4; 4 more corpus cases), "
+        "or the default keys handed round among the topologies of the cover; vertex / edge literals spelled as "
         "list, tuple, without spaces, edges as lists. "
         "Non-trivial = at least two motifs share a vertex, iterations >= 1 and some 0 < phi < 1 (or phi = 1 with >= 4 "
         "sweeps); distinct by (motifs, order, T, phis, number types)")
@@ -440,6 +442,12 @@ def corpus():
     for km, fmt in (("edges", None), ("index0", "tuple"), ("big", "tight"), ("edges", "mixed")):
         c = _build(rng, ["k4", "edge", "triangle", "cycle4"], range(14), glue="chain")
         out.append(dict(c, T=2, phis=[[1, 2], [3, 8]], keymode=km, fmt=fmt))
+    # keys that coincide with a structural number of a NON-clique motif (4-cycle keyed 4, 5-cycle keyed 5, diamond keyed
+    # 4) or with the size of a different motif
+    for km, shapes in (("verts", ["cycle4", "triangle", "edge"]), ("verts", ["cycle5", "diamond", "k4"]),
+                       ("rot", ["triangle", "cycle4", "edge"]), ("verts", ["path3", "tailed", "triangle"])):
+        c = _build(rng, shapes, range(14), glue="chain")
+        out.append(dict(c, T=2, phis=[[1, 2], [3, 8]], keymode=km))
     # T = 0 and the empty network
     c = _build(rng, ["triangle", "edge"], range(5), glue="chain")
     out.append(dict(c, T=0, phis=[[1, 2], [1, 4]]))
@@ -494,14 +502,16 @@ def generate(rng, tier):
 
 
 # ----------------------------------------------------------------- implementation side
-KEYMODES = [None, "edges", "index0", "big"]
+KEYMODES = [None, "edges", "index0", "big", "verts", "rot"]
 FMTS = [None, "tight", "tuple", "mixed"]
 
 
 def _label(case, m):
     """the cover label "<key>-[vertices]-[edges]-<uid>".  The key is an integer NAMING the topology (nothing says it
     is the motif's size): case["keymode"] None = TOPO_KEY (cliques by size), "edges" = cliques by their number of
-    edges, "index0" = topologies numbered from 0 in the order of their TOPO_KEY, "big" = arbitrary large numbers;
+    edges, "index0" = topologies numbered from 0 in the order of their TOPO_KEY, "big" = arbitrary large numbers,
+    "verts" = the VERTEX COUNT n for one (preferably non-clique) topology on n vertices, "rot" = the default keys handed
+    round among the topologies of the cover;
     case["fmt"] = spelling of the vertex / edge literals (all read alike by ast.literal_eval)."""
     km, fmt = case.get("keymode"), case.get("fmt")
     key = m["key"]
@@ -512,6 +522,18 @@ def _label(case, m):
         key = sorted({x["key"] for x in case["motifs"]}).index(key)
     elif km == "big":
         key = 1000 + 37 * key
+    elif km == "verts":
+        # the key n names ONE topology on n vertices, a non-clique one if the cover has any (a chordless 4-cycle keyed 4,
+        # a 5-cycle keyed 5): a key that equals the motif's vertex count says nothing about its edges
+        def _cl(x):
+            return len(x["edges"]) == len(x["verts"]) * (len(x["verts"]) - 1) // 2
+        same = [x for x in case["motifs"] if len(x["verts"]) == n]
+        pref = sorted({x["key"] for x in same if not _cl(x)}) or sorted({x["key"] for x in same})
+        key = n if pref[0] == key else 100 + key
+    elif km == "rot":
+        # the default keys handed round among the topologies of the cover (a 4-cycle keyed 3, the triangle keyed 40)
+        ks = sorted({x["key"] for x in case["motifs"]})
+        key = ks[(ks.index(key) + 1) % len(ks)]
     vs = [int(v) for v in m["verts"]]
     es = [(int(a), int(b)) for a, b in m["edges"]]
     if fmt == "tight":
